@@ -76,6 +76,10 @@ func NewEmptyRecord(len int) Record {
 }
 
 func (r Record) GroupLen() int {
+	if len(r) < 1 {
+		// a table without columns (e.g. an empty JSON array) has records without cells
+		return 0
+	}
 	return len(r[0])
 }
 
